@@ -72,7 +72,7 @@ def run_unit(unit, repo, scratch, rlimit=None, extra_args=()):
     res = VerusResult()
     tpath = unit["template"]
     try:
-        ex = vextract.build(tpath, repo)
+        ex = vextract.build(tpath, repo, subst=unit.get("subst"))
     except AnchorError as e:
         res.reason = f"lost anchor: {e}"
         return res
@@ -91,11 +91,22 @@ def run_unit(unit, repo, scratch, rlimit=None, extra_args=()):
     cmd += list(extra_args)
     res.cmd = " ".join(cmd)
     t0 = time.time()
+    # own session, so that on a wall-clock timeout the z3 child is killed together with verus
+    import signal
+    from types import SimpleNamespace
+    pr = subprocess.Popen(cmd, stdout=subprocess.PIPE, stderr=subprocess.PIPE, text=True, cwd=scratch,
+                          start_new_session=True)
     try:
-        p = subprocess.run(cmd, capture_output=True, text=True, cwd=scratch, timeout=unit.get("timeout", 600))
+        so, se = pr.communicate(timeout=unit.get("timeout", 600))
     except subprocess.TimeoutExpired:
+        try:
+            os.killpg(pr.pid, signal.SIGKILL)
+        except ProcessLookupError:
+            pass
+        pr.communicate()
         res.reason = "verus wall-clock timeout"
         return res
+    p = SimpleNamespace(stdout=so, stderr=se, returncode=pr.returncode)
     res.total_ms = int((time.time() - t0) * 1000)
     res.raw_stderr = p.stderr
     try:
